@@ -1,6 +1,11 @@
 use std::cell::UnsafeCell;
 use std::mem::take;
+#[cfg(not(nucleo_verif))]
 use std::sync::atomic::{self, AtomicBool, AtomicU32};
+#[cfg(nucleo_verif)]
+use std::sync::atomic::{self, AtomicU32};
+#[cfg(nucleo_verif)]
+use crate::verif::FlagBool as AtomicBool;
 use std::sync::Arc;
 
 use nucleo_matcher::Config;
